@@ -242,6 +242,11 @@ def random_history(rng, n):
                 if n >= 2 and rng.random() < 0.4:
                     a, b = rng.sample(NAMES[:n], 2)
                     steps.append({"op": "epr", "pair": [a, b], "number": rng.choice([1, 2, 3])})
+                    # an SDK application that exits signals its backend to stop (netqasm: _stop_backend_on_exit = True ->
+                    # Signal.STOP -> QNodeController.finished -> qnodeos process ends), by design; a network that has served an
+                    # application is therefore stopped before anything else is asked of it (as `cycle` does)
+                    steps.append({"op": "stop"})
+                    up = False
             elif rng.random() < 0.5:
                 steps.append({"op": "sleep", "s": round(rng.uniform(0.0, 1.5), 2)})
         else:
